@@ -353,6 +353,10 @@ impl World for MutexWorld {
         m
     }
 
+    fn word_addrs(&self) -> Vec<usize> {
+        if self.alive() { self.mref().__verif_snapshot().addrs } else { Vec::new() }
+    }
+
     fn pending(&self) -> usize {
         self.futs.values().filter(|x| x.polled && !x.done).count()
     }
